@@ -30,8 +30,13 @@ def srt(xs):
 
 
 class StdioCase:
-    def __init__(self, name, files, disabled=None, pyproject=None):
+    def __init__(self, name, files, disabled=None, pyproject=None, scan_first=False):
         self.name = name
+        # scan_first=False: the workspace is still empty when the server starts (its background scan
+        # finds nothing); the files are written afterwards and every one of them is opened by the
+        # script, so the registration order is the order of the didOpen notifications and nothing
+        # depends on the scan's schedule
+        self.scan_first = scan_first
         self.files = dict(files)          # rel path -> text (on disk before the server starts)
         self.steps = []
         self.disabled = disabled or []    # diagnostic codes the config disables (model side)
@@ -120,6 +125,35 @@ def ask(c, kind, args):
         if r is None:
             return "none"
         return listed([f"{h['position']['line']}:{h['position']['character']}:{hexs(h['label'])}" for h in r])
+    if kind == "completion":
+        p, l, ch = args[0], int(args[1]), int(args[2])
+        params = c.pos(p, l, ch)
+        if len(args) > 3 and args[3] == "comma":
+            params["context"] = {"triggerKind": 2, "triggerCharacter": ","}
+        r = c.request("textDocument/completion", params)
+        if r is None:
+            return "none"
+        items = r.get("items", []) if isinstance(r, dict) else r
+        out = []
+        for i in items:
+            ed = "-"
+            if i.get("additionalTextEdits"):
+                e = i["additionalTextEdits"][0]
+                ed = f"{e['range']['start']['line']}:{e['range']['start']['character']}:{hexs(e['newText'])}"
+            out.append(f"{i['label']}|{i.get('sortText')}|{hexs(i.get('detail') or '')}|{hexs(i.get('insertText') or '')}|{i.get('kind')}|{ed}")
+        return listed(out)
+    if kind == "action":
+        p, l, ch = args[0], int(args[1]), int(args[2])
+        diag = {"range": {"start": {"line": l, "character": ch}, "end": {"line": l, "character": ch + 1}},
+                "code": "undeclared-fixture", "source": "pytest-lsp", "message": "m", "severity": 2}
+        r = c.request("textDocument/codeAction", {"textDocument": {"uri": c.uri(p)}, "range": diag["range"],
+                                                 "context": {"diagnostics": [diag]}})
+        if not r:
+            return "none"
+        a = r[0]
+        ch_ = a["edit"]["changes"]
+        ed = list(ch_.values())[0][0]
+        return f"{hexs(a['title'])}|{ed['range']['start']['line']}:{ed['range']['start']['character']}|{hexs(ed['newText'])}"
     if kind == "wsym":
         q = binascii.unhexlify(args[0]).decode() if args[0] != "-" else ""
         r = c.request("workspace/symbol", {"query": q})
@@ -142,18 +176,23 @@ def play(case, base, timeout=15.0):
     root = os.path.join(base, case.name, "ws")
     shutil.rmtree(os.path.join(base, case.name), ignore_errors=True)
     os.makedirs(root)
-    for p, t in case.files.items():
-        full = os.path.join(root, p)
-        os.makedirs(os.path.dirname(full), exist_ok=True)
-        with open(full, "wb") as f:
-            f.write(t.encode("utf-8") if isinstance(t, str) else t)
+    def write_files():
+        for p, t in case.files.items():
+            full = os.path.join(root, p)
+            os.makedirs(os.path.dirname(full), exist_ok=True)
+            with open(full, "wb") as f:
+                f.write(t.encode("utf-8") if isinstance(t, str) else t)
     if case.pyproject is not None:
         with open(os.path.join(root, "pyproject.toml"), "wb") as f:
             f.write(case.pyproject.encode("utf-8") if isinstance(case.pyproject, str) else case.pyproject)
+    if case.scan_first:
+        write_files()
     answers = []
     c = None
     try:
         c = lsp.Client(core.SERVER_BIN, root, timeout=timeout)
+        if not case.scan_first:
+            write_files()
         dead = None
         for st in case.steps:
             if dead:
@@ -198,7 +237,8 @@ def to_model_lines(case, cases):
         return tid
     for p, t in case.files.items():
         cases.raw("disk %s %s" % (p, declare(t)))
-    cases.op("scan")
+    if case.scan_first:
+        cases.op("scan")
     dis = ",".join(case.disabled) if case.disabled else "-"
     for st in case.steps:
         if st[0] in ("open", "change"):
